@@ -125,10 +125,10 @@ def run_spec(spec, R):
             probes["step_after_fault"] += 1
         if op.tool and last_failed_tool.get((ci, op.tool)):
             probes["parse_after_failed_parse_same_parser" if op.kind.startswith(("parse", "user", "tree_parse", "dict_decode")) else "serialize_after_sink_fault"] += 1
-        if imported_since[ci] and env.context.sys_modules:
+        if imported_since[ci] and getattr(env.context, "sys_modules", 0):
             probes["index_rebuilt_after_import"] += 1
         rec = O.execute(op, env, fault)
-        if env.context.sys_modules:
+        if getattr(env.context, "sys_modules", 0):
             imported_since[ci] = False
         fresh = O.execute(op, O.Env(), fault)
         log.append((step["op"], ci, rec["k"], rec["v"], tuple(rec["w"]), tuple(rec["l"])))
